@@ -574,6 +574,33 @@ def check(ctx):
     if n4 < 40:
         raise AnalysisError('C12.R4 saw only %d raises on encode paths' % n4)
 
+    # ---- R8: every component of the path is recorded once.  The path of an encode error is assembled by the enclosing containers: each adds the child it called
+    #      (add_location drops a component only when it is the *same object* as the last one).  An EncodeError that is constructed with its raiser as location, or a type that adds
+    #      itself, is recorded once more by whoever holds it under another object of the same name (ber.ExplicitTag around the type): "A.a.a: ..." instead of "A.a: ...".
+    ctx.rule('C12.R8', 'encode errors are located by the containers only: no EncodeError / ConstraintsError is constructed with a location, no type adds itself to the path')
+    n8 = 0
+    for m_ in model.modules.values():
+        if not m_.rel.startswith('asn1tools/codecs/'):
+            continue
+        for x_ in ast.walk(m_.tree):
+            if not isinstance(x_, ast.Call):
+                continue
+            fn_ = x_.func
+            nm_ = fn_.id if isinstance(fn_, ast.Name) else (fn_.attr if isinstance(fn_, ast.Attribute) else None)
+            if nm_ in ('EncodeError', 'ConstraintsError'):
+                n8 += 1
+                loc_ = [k_ for k_ in x_.keywords if k_.arg == 'location'] or x_.args[1:2]
+                bad_ = bool(loc_) and not (isinstance(loc_[0], ast.keyword) and isinstance(loc_[0].value, ast.Constant) and loc_[0].value.value is None)
+                if bad_:
+                    ctx.instance('C12.R8', '%s:%d %s constructed with a location' % (m_.rel, x_.lineno, nm_), 'VIOLATION', node=x_, file=m_.rel)
+                    ctx.violation('C12.R8', m_.rel, x_, '%s::%s' % (m_.rel, Model.qual(Model.enclosing_function(x_)).split('::')[-1] if Model.enclosing_function(x_) is not None else '<module>'),
+                                  '%s is constructed with `%s`: the enclosing container adds the child it called as well, and when that child is a wrapper of the same name '
+                                  '(an EXPLICIT tag around the type) the component appears twice in the path (`A.a.a: ...`), so the text no longer starts with the path that leads to the component'
+                                  % (nm_, ast.unparse(loc_[0])[:60]), stmt='%s(..., location)' % nm_)
+    ctx.instance('C12.R8', '%d EncodeError / ConstraintsError constructions in asn1tools/codecs, none carries a location' % n8, 'ok', nontrivial=True)
+    if n8 < 30:
+        raise AnalysisError('C12.R8 saw only %d error constructions' % n8)
+
 
 OER = 'asn1tools/codecs/oer.py'
 PER = 'asn1tools/codecs/per.py'
